@@ -93,6 +93,8 @@ def _sum(a):
 
 def _compact(ctx, name, shape, margin):
     """array that is zero within `margin` cells of every face of the trailing len(shape) axes"""
+    if any(n - 2 * margin < 1 for n in shape):
+        raise RuntimeError(f"vacuous instance: no cell of a {tuple(shape)} grid is {margin} cells away from every face")
     a = ctx.zeros(shape)
     inner = tuple(slice(margin, n - margin) for n in shape)
     ishape = tuple(n - 2 * margin for n in shape)
